@@ -18,7 +18,11 @@ THEOREMS = [
     ("Anytree.Props.C05.pre_decorate", "full"),
     ("Anytree.Props.C05.post_decorate", "full"),
     ("Anytree.Props.C05.levels_decorate", "full"),
+    ("Anytree.Props.C05b.pieces_flatten", "full"),
+    ("Anytree.Props.C05b.exhausted_stays", "full"),
+    ("Anytree.Props.C05b.preIter_pieces", "full"),
 ]
+MODULES = ["Anytree.Props.C05", "Anytree.Props.C05b"]
 NOT_COVERED = []
 RULE = ("every ordered tree shape up to N nodes (quick 5, thorough 7) with pre-order and shuffled labels, every "
         "start node, all five iterators with default arguments; plus seeded random shapes (chains, stars, combs, "
